@@ -66,6 +66,16 @@ def fixed_families(rng):
     fam.append(('random-plain-contacts', base(networks=[dict(type='random', n_contacts=4, dur=0, plain=True)],
                                               demographics=[dict(type='pregnancy', fertility_rate=600, p_maternal_death=0, p_neonatal_death=0, burnin=True, dur_postpartum=0.3),
                                                             dict(type='deaths', death_rate=250)], dur=5.0)))
+    # stated durations (number / constant distribution / random distribution) under timesteps on both sides of 1: the lifetime
+    # of an edge is ceil(D / dt) updates of its network, D being what the configuration states, in the network's unit
+    fam.append(('random-dur-quarterly', base(dt=0.25, networks=[dict(type='random', n_contacts=2, dur=1.0)], dur=2.5)))
+    fam.append(('random-dur-coarse', base(dt=2.0, networks=[dict(type='random', n_contacts=2, dur=5.0), dict(type='erdos', p=0.05, dur=('const', 3.0))],
+                                          demographics=[dict(type='deaths', death_rate=40)], dur=12.0)))
+    fam.append(('random-dur-dist-monthly', base(dt=1 / 12, networks=[dict(type='random', n_contacts=2, dur=('const', 0.2)),
+                                                                      dict(type='erdos', p=0.04, dur=('lognorm', 0.3, 0.1))], dur=0.75)))
+    fam.append(('maternal-deaths', base(n_agents=80, dt=0.25, networks=[dict(type='prenatal'), dict(type='postnatal'), dict(type='random', n_contacts=2, dur=0.6)],
+                                        demographics=[dict(type='pregnancy', fertility_rate=500, p_maternal_death=0.2, p_neonatal_death=0.3, burnin=True, dur_postpartum=0.6),
+                                                      dict(type='deaths', death_rate=120)], dur=3.0)))
     return fam
 
 
@@ -142,6 +152,29 @@ def make_swap(k):
     return Swap(k)
 
 
+def dur_par(d):
+    """ the `dur` parameter of a RandomNet / ErdosRenyiNet from its JSON form: a number, ('lognorm', mean, std) or ('const', v) """
+    import starsim as ss
+    if isinstance(d, (tuple, list)):
+        return ss.constant(d[1]) if d[0] == 'const' else ss.lognorm_ex(mean=d[1], std=d[2])
+    return d
+
+
+def stated_of(ncfg):
+    """ What the CONFIGURATION states about the duration of the edges of a network: ('plain', D) — every edge lasts D, in the
+        network's time unit (a number, or a constant distribution) —, ('drawn', None) — one draw of the duration distribution
+        per new edge —, or None for a network without a duration parameter. """
+    t = ncfg['type']
+    if t in ('random', 'erdos'):
+        d = ncfg['dur']
+        if isinstance(d, (tuple, list)):
+            return ('plain', float(d[1])) if d[0] == 'const' else ('drawn', None)
+        return ('plain', float(d))
+    if t in ('mf', 'msm', 'embedding'):
+        return ('drawn', None)
+    return None
+
+
 def build_sim(cfg, probe=None):
     import starsim as ss
     nets = []
@@ -150,8 +183,7 @@ def build_sim(cfg, probe=None):
         own = dict(dt=n['net_dt']) if n.get('net_dt') else {}
         if t == 'random':
             nc = n['n_contacts']; nc = ss.poisson(lam=nc[1]) if isinstance(nc, (tuple, list)) else nc
-            d = n['dur']; d = ss.lognorm_ex(mean=d[1], std=d[2]) if isinstance(d, (tuple, list)) else d
-            net = ss.RandomNet(n_contacts=nc, dur=d, **own)
+            net = ss.RandomNet(n_contacts=nc, dur=dur_par(n['dur']), **own)
             if n.get('plain'):
                 net.pars['n_contacts'] = n['n_contacts']   # a plain number stored on the parameter object itself
             nets.append(net)
@@ -160,7 +192,7 @@ def build_sim(cfg, probe=None):
             nets.append(cls(duration=ss.lognorm_ex(mean=n['duration'], std=0.5 * n['duration']),
                             debut=ss.normal(loc=n['debut'], scale=2), participation=ss.bernoulli(p=n['participation']), **own))
         elif t == 'erdos':
-            nets.append(ss.ErdosRenyiNet(p=n['p'], dur=n['dur'], **own))
+            nets.append(ss.ErdosRenyiNet(p=n['p'], dur=dur_par(n['dur']), **own))
         elif t == 'pool':
             nets.append(ss.MixingPool(src=ss.uids(n['src']), dst=ss.uids(n['dst']), beta=ss.beta(0.1)))
         elif t == 'pools':
@@ -239,7 +271,7 @@ def make_probe():
             ps = people_of(sim)
             for name, net in sim.networks.items():
                 if isinstance(net, ss.Network):
-                    snap = dict(op='snap', ti=int(sim.ti), net=name, cls=type(net).__name__, table=table_of(net), people=ps,
+                    snap = dict(op='snap', ti=int(sim.ti), nti=int(net.ti), net=name, cls=type(net).__name__, table=table_of(net), people=ps,
                                 netstate=netstate_of(net, ps))
                 elif isinstance(net, (ss.MixingPool, ss.MixingPools)):
                     snap = dict(op='snap', ti=int(sim.ti), net=name, cls=type(net).__name__, groups=pool_groups(net), people=ps)
@@ -359,6 +391,37 @@ class Recorder:
                 return out
             return f
 
+        def w_rvs(orig):
+            def f(self, *a, **kw):
+                out = orig(self, *a, **kw)
+                try:
+                    nets = list(self.sim.networks.values()) if getattr(self, 'sim', None) is not None and self.initialized else []
+                except Exception:
+                    nets = []
+                for net in nets:
+                    pars = getattr(net, 'pars', None)
+                    if pars is None: continue
+                    for key in ('dur', 'duration'):
+                        if key in pars and pars[key] is self:
+                            rec.events.append(dict(op='durdraw', net=net.name, cls=type(net).__name__, par=key,
+                                                   values=np.array(out, dtype=float).ravel().copy()))
+                return out
+            return f
+
+        def w_matadd(orig):
+            def f(self, mother_inds=None, unborn_inds=None, dur=None, start=None):
+                pre = table_of(self)
+                out = orig(self, mother_inds, unborn_inds, dur, start)
+                if mother_inds is not None:
+                    rec.events.append(dict(op='matadd', net=self.name, cls=type(self).__name__, pre=pre, post=table_of(self), ti=int(self.ti),
+                                           mothers=np.asarray(mother_inds).astype(int).copy(), unborn=np.asarray(unborn_inds).astype(int).copy(),
+                                           durs=np.array(dur, dtype=float).ravel().copy(),
+                                           starts=None if start is None else np.array(start, dtype=float).ravel().copy()))
+                return out
+            return f
+
+        patch(ss.Dist, 'rvs', w_rvs)
+        patch(N.MaternalNet, 'add_pairs', w_matadd)
         patch(N.Network, 'append', w_append)
         patch(N.DynamicNetwork, 'end_pairs', w_end('end'))
         patch(N.MaternalNet, 'end_pairs', w_end('matend'))
@@ -383,7 +446,29 @@ def run_recorded(cfg):
     plain = set(net.name for net, n in zip(sim.networks.values(), cfg['networks']) if n.get('plain')) if len(sim.networks) == len(cfg['networks']) else set()
     for ev in rec.events:
         if ev.get('net') in plain: ev['plain'] = True
+    attach_stated(sim, cfg, rec.events)
     return sim, rec.events, sim.interventions[0].snaps
+
+
+def attach_stated(sim, cfg, events):
+    """ For every `append` of a duration-carrying network: the `dur` column the configuration STATES for the new edges
+        (`stated_col`), derived from the user's configuration (plain number / constant) or from the draws of the network's
+        duration distribution recorded since the network's previous append — never from the appended column itself. """
+    if len(sim.networks) != len(cfg['networks']): return
+    stated = {net.name: stated_of(n) for net, n in zip(sim.networks.values(), cfg['networks'])}
+    last_draw = {}
+    for ev in events:
+        if ev['op'] == 'durdraw':
+            last_draw[ev['net']] = ev['values']
+        elif ev['op'] == 'append' and not ev['err'] and stated.get(ev['net']) is not None and 'p1' in ev['new']:
+            how, val = stated[ev['net']]
+            n = len(ev['new']['p1'])
+            ev['stated'] = how
+            if how == 'plain':
+                ev['stated_val'] = val
+                ev['stated_col'] = np.full(n, val, dtype=float)
+            else:
+                ev['stated_col'] = last_draw.pop(ev['net'], None)   # None: no draw of the duration parameter preceded this append
 
 
 # ---------------------------------------------------------------------------
@@ -443,7 +528,7 @@ def col_equal(model_vals, obs, is_uid, tol=0.0):
     return True
 
 
-def compare_table(model_line, obs_tab, kind, tol_dur=0.0):
+def compare_table(model_line, obs_tab, kind, tol_dur=0.0, tol_end=0.0):
     """ None if equal, else a description """
     if not model_line.startswith('ok '):
         return f'model answered {model_line!r}'
@@ -451,7 +536,7 @@ def compare_table(model_line, obs_tab, kind, tol_dur=0.0):
     for k in KEYS[kind]:
         if k not in obs_tab:
             return f'observed table lacks column {k}'
-        if not col_equal(m.get(LEANCOL[k], []), obs_tab[k], k in ('p1', 'p2'), tol_dur if k == 'dur' else 0.0):
+        if not col_equal(m.get(LEANCOL[k], []), obs_tab[k], k in ('p1', 'p2'), tol_dur if k == 'dur' else tol_end if k == 'end' else 0.0):
             return f'column {k}: model {m.get(LEANCOL[k])[:8]}… vs observed {list(np.asarray(obs_tab[k]).tolist())[:8]}… (lengths {len(m.get(LEANCOL[k], []))}/{len(obs_tab[k])})'
     return None
 
@@ -501,6 +586,17 @@ def event_lines(ev, variant_of):
         out.append((line, chk))
         if kind in ('random', 'erdos', 'mf', 'msm', 'embedding') and ev['people'] is not None and not ev['err']:
             out.append(accept_line(ev, akind, new.get('p1', []), new.get('p2', []), new.get('dur', []), new.get('acts', []), variant_of))
+            if 'stated' in ev:
+                out.append(addstated_line(ev, akind, new, variant_of))
+    elif op == 'matadd':
+        line = ' '.join(['matadd', f'kind={kind}', f"ti={ev['ti']}", 'mothers=' + lst(ev['mothers']), 'unborn=' + lst(ev['unborn']),
+                         'durs=' + lst(ev['durs'], frac)] + (['starts=' + lst(ev['starts'], frac)] if ev['starts'] is not None else []) +
+                        table_kv(ev['pre'], kind))
+        def chk(ml, ev=ev, kind=kind):
+            d = compare_table(ml, ev['post'], kind, tol_end=1e-15)   # end = start + dur: exact in the model, one float64 addition in the code
+            if d: return d
+            return None if ' wf=1' in ml else 'MaternalNet.add_pairs produced columns of unequal length (model wf=0)'
+        out.append((line, chk))
     elif op == 'diskadd':
         out.append(accept_line(ev, kind, ev['post']['p1'], ev['post']['p2'], [], [], variant_of))
     return out
@@ -536,6 +632,26 @@ def accept_line(ev, kind, a, b, durs, acts, variant_of):
         if ml.startswith('ok accept=1'):
             return None
         return f'{kind} ({variant}): the observed new edges are not a possible outcome of the model\'s add_pairs: {ml[:200]}'
+    return (line, chk)
+
+
+def addstated_line(ev, kind, new, variant_of):
+    """ the whole add_pairs through the model: observed pre-table and people, the observed endpoints as the random choice, and
+        the durations the CONFIGURATION states (number, or the recorded draws of the duration distribution); the model must
+        produce the observed post-table, dur column included """
+    variant = variant_of(kind)
+    if ev['stated'] == 'plain':
+        dur = ['durpar=plain', 'dval=' + frac(ev['stated_val'])]
+    else:
+        dur = ['durpar=drawn', 'draws=' + (lst(ev['stated_col'], frac) if ev['stated_col'] is not None else '-')]
+    line = ' '.join(['addstated', f'kind={kind}', f'variant={variant}'] + people_kv(ev['people'], ev['netstate']) + table_kv(ev['pre'], kind) +
+                    ['a=' + lst(np.asarray(new.get('p1', [])).astype(int)), 'b=' + lst(np.asarray(new.get('p2', [])).astype(int)),
+                     'actsl=' + lst(np.asarray(new.get('acts', []), dtype=float), frac)] + dur)
+    def chk(ml, ev=ev, kind=kind):
+        if ev['stated'] == 'drawn' and ev['stated_col'] is None and len(new.get('p1', [])):
+            return 'no draw of the duration distribution preceded this add_pairs'
+        d = compare_table(ml, ev['post'], kind)
+        return f'add_pairs with the stated durations: {d}' if d else None
     return (line, chk)
 
 
@@ -581,6 +697,16 @@ def oracle_snapshot(s, removed_ever):
     dead = sorted(set(u for u in ends if u in au and u not in alive))
     if dead:
         fails.append((dict(oracle='endpoints-alive', network=cls), f"{cls} at ti={s['ti']}: endpoint(s) {dead[:5]} are active but not alive"))
+    if kind == 'maternal' and all(k in tab and len(tab[k]) == n for k in ('beta', 'dur', 'start', 'end')):
+        # a maternal edge states its window [start, start + dur): it transmits (beta 1) until the network's step reaches its end
+        nti = s.get('nti', s['ti'])
+        for i in range(n):
+            st, d, e, b = float(tab['start'][i]), float(tab['dur'][i]), float(tab['end'][i]), float(tab['beta'][i])
+            if e != st + d:
+                fails.append((dict(oracle='maternal-window', network=cls), f"{cls} at ti={s['ti']}: edge {i} has start={st}, dur={d} but end={e}")); break
+            if (b != 0) != (e > nti):
+                fails.append((dict(oracle='maternal-window', network=cls),
+                              f"{cls} at ti={s['ti']} (network ti={nti}): edge {i} ({int(tab['p1'][i])}->{int(tab['p2'][i])}) with window [{st}, {e}) has beta={b}")); break
     if kind in PARTNERSHIP and len(set(ends)) != len(ends):
         dup = sorted(u for u in set(ends) if ends.count(u) > 1)
         fails.append((dict(oracle='monogamy', network=cls), f"{cls} at ti={s['ti']}: agent(s) {dup[:5]} are in two concurrent edges"))
@@ -673,8 +799,51 @@ def oracle_events(events, snaps, cfg):
             if ce != exp:
                 fails.append((dict(oracle='static-only-shrinks', network=ss_[0]['cls']),
                               f"StaticNet changed between ti={prev['ti']} and ti={cur['ti']} other than by losing the edges of removed agents ({len(pe)} -> {len(ce)}, expected {len(exp)})"))
-    # (c) lifetimes: an edge appended with duration d at step s is present at s+k iff k == 0 or k*dt < d (endpoints alive)
+    # (c) stated durations: the dur column of new edges IS the configured duration (number) / the draws of the duration distribution
+    fails += oracle_stated(events)
+    # (d) lifetimes: an edge of STATED duration d created at step s is present at s+k iff k == 0 or k*dt < d (endpoints alive)
     fails += oracle_lifetimes(events, snaps, cfg)
+    return fails
+
+
+def oracle_stated(events):
+    """ The duration a new edge carries is the one its network's configuration states: exactly the configured number (in the
+        network's time unit) for a plain / constant duration, exactly the value drawn for it from the configured duration
+        distribution otherwise.  MaternalNet.add_pairs appends exactly the (mother, child, dur, start, start + dur) it is given. """
+    fails = []
+    seen = set()
+    for ev in events:
+        cls = ev.get('cls')
+        if ev['op'] == 'append' and 'stated' in ev and cls not in seen:
+            got = np.asarray(ev['new'].get('dur', []), dtype=float).ravel()
+            exp = ev['stated_col']
+            n = len(ev['new']['p1'])
+            if exp is None:
+                if n:
+                    seen.add(cls)
+                    fails.append((dict(oracle='stated-duration', network=cls),
+                                  f'{cls}.add_pairs appended {n} edge(s) without drawing their durations from the duration distribution (dur column {got[:4].tolist()}…)'))
+                continue
+            exp = np.asarray(exp, dtype=float).ravel()
+            if len(exp) != len(got) or not np.array_equal(exp, got):
+                seen.add(cls)
+                i = next((j for j in range(min(len(exp), len(got))) if exp[j] != got[j]), None)
+                what = (f'new edge {i} ({int(ev["new"]["p1"][i])}->{int(ev["new"]["p2"][i])}) carries dur={got[i]!r} but its stated duration is {exp[i]!r}'
+                        if i is not None else f'{len(got)} durations for {len(exp)} stated ones')
+                src = f"the configured duration {ev['stated_val']!r}" if ev['stated'] == 'plain' else 'the draws of the configured duration distribution'
+                fails.append((dict(oracle='stated-duration', network=cls), f'{cls}.add_pairs (ti={ev.get("ti")}): {what} ({src}, in the network\'s time unit)'))
+        if ev['op'] == 'matadd' and ('mat', cls) not in seen:
+            pre, post = ev['pre'], ev['post']
+            starts = ev['starts'] if ev['starts'] is not None else np.full(len(ev['durs']), float(ev['ti']))
+            exp = dict(p1=ev['mothers'], p2=ev['unborn'], beta=np.ones(len(ev['mothers'])), dur=ev['durs'], start=starts, end=starts + ev['durs'])
+            for k, v in exp.items():
+                want = np.concatenate([np.asarray(pre[k], dtype=float), np.asarray(v, dtype=float)])
+                have = np.asarray(post.get(k, []), dtype=float)
+                if len(want) != len(have) or not np.array_equal(want, have):
+                    seen.add(('mat', cls))
+                    fails.append((dict(oracle='maternal-window', network=cls),
+                                  f'{cls}.add_pairs at ti={ev["ti"]}: column {k} is {have[-4:].tolist()} after appending, expected {want[-4:].tolist()} (mothers, children, beta 1, the given durations, start, start + dur)'))
+                    break
     return fails
 
 
@@ -740,8 +909,11 @@ def oracle_lifetimes(events, snaps, cfg):
             if ev['op'] == 'end':
                 nend += 1; dt_net = ev['dt']
             elif ev['op'] == 'append' and not ev['err'] and 'dur' in ev['new']:
+                durs = np.asarray(ev['new']['dur'], dtype=float)
+                if ev.get('stated_col') is not None and len(ev['stated_col']) == len(durs):
+                    durs = np.asarray(ev['stated_col'], dtype=float)   # the STATED duration, not what the class wrote into the column
                 for a, b, d in zip(np.asarray(ev['new']['p1']).astype(int).tolist(), np.asarray(ev['new']['p2']).astype(int).tolist(),
-                                   np.asarray(ev['new']['dur'], dtype=float).tolist()):
+                                   durs.tolist()):
                     tracked.append((nend, a, b, d))
             elif ev['op'] == 'snap':
                 if dt_net is None: continue
@@ -759,7 +931,7 @@ def oracle_lifetimes(events, snaps, cfg):
                     if key in amb: continue
                     if got.get(key, 0) != exp.get(key, 0):
                         fails.append((dict(oracle='edge-lifetime', network=cls),
-                                      f"{cls} at sim step {ev['ti']} (after {nend} network updates, network dt={dt_net}, sim dt={cfg['dt']}): edge {key} is present {got.get(key, 0)} time(s) but {exp.get(key, 0)} edge(s) between these agents have a stated duration reaching this update"))
+                                      f"{cls} at sim step {ev['ti']} (after {nend} network updates, network dt={dt_net}, sim dt={cfg['dt']}): edge {key} is present {got.get(key, 0)} time(s) but {exp.get(key, 0)} edge(s) between these agents have a stated duration (configuration / draws of the duration parameter) reaching this update"))
                         return fails
     return fails
 
@@ -823,6 +995,31 @@ def direct_scenario(spec):
             still = sorted(set(int(u) for u in ppl.auids) & set(int(u) for u in victims))
             if still:
                 fails.append((dict(oracle='removed-still-active', network='People'), f'after remove_dead the dead agent(s) {still[:5]} are still in auids'))
+    attach_stated(sim, cfg, rec.events)
+    fails += oracle_stated(rec.events)
+    return dict(events=rec.events[n0:], fails=fails)
+
+
+def maternal_direct(spec):
+    """ Direct API use of MaternalNet.add_pairs: explicit start, and the default start (= the network's current step) """
+    import starsim as ss
+    cfg = dict(n_agents=spec['n_agents'], rand_seed=spec['seed'], dt=spec['dt'], start=2000, dur=spec['dt'] * 6,
+               networks=[dict(type='maternal')], demographics=[dict(type='pregnancy', fertility_rate=100, burnin=False)], disease='sis')
+    with Recorder() as rec:
+        sim = build_sim(cfg)
+        sim.init()
+        if spec['steps']:
+            sim.run(until=2000 + spec['steps'] * spec['dt'])
+        net = sim.networks[0]
+        n0 = len(rec.events)
+        rng = np.random.default_rng(spec['seed'])
+        au = np.asarray(sim.people.auids)
+        pick = rng.choice(au, size=2 * spec['k'], replace=False)
+        durs = np.round(rng.uniform(0.5, 6, size=spec['k']), 3)
+        starts = None if spec['default_start'] else np.full(spec['k'], float(int(net.ti)) + spec['offset'])
+        net.add_pairs(ss.uids(pick[:spec['k']]), ss.uids(pick[spec['k']:]), dur=durs, start=starts)
+        net.step()
+    fails = oracle_stated(rec.events[n0:])
     return dict(events=rec.events[n0:], fails=fails)
 
 
@@ -832,6 +1029,11 @@ def gen_direct(rng):
                       dict(type='erdos', p=0.08, dur=2.5 * dt), dict(type='msm', duration=5 * dt, debut=16, participation=0.9),
                       dict(type='embedding', duration=5 * dt, debut=16, participation=0.9)])
     return dict(n_agents=rng.choice([30, 60]), seed=rng.randint(0, 9999), dt=dt, net=net, what=rng.choice(['end_pairs', 'end_pairs', 'remove_dead']))
+
+
+def gen_direct_mat(rng, i):
+    return dict(n_agents=30, seed=rng.randint(0, 9999), dt=rng.choice([1.0, 0.5, 0.25]), steps=rng.choice([0, 2, 3]), k=rng.choice([1, 3, 5]),
+                default_start=(i % 2 == 0), offset=rng.choice([0.0, 1.0, -2.0]))
 
 
 # ---------------------------------------------------------------------------
@@ -852,7 +1054,7 @@ def correspond(ctx):
     nsims = ctx.budget(14, 90)
     pool = ['random', 'mf', 'msm', 'embedding', 'erdos', 'disk', 'static', 'null', 'maternal', 'prepost']
     lines = []; checks = []
-    max_lines = ctx.budget(1500, 9000)
+    max_lines = ctx.budget(2400, 9000)
     covered = {}
     fam = fixed_families(ctx.rng)
     cfgs = [c for _, c in fam]
@@ -897,6 +1099,16 @@ def correspond(ctx):
         for ev in res['events']:
             for line, chk in event_lines(ev, variant_of):
                 lines.append(line); checks.append((chk, dict(kind='direct', spec=spec, op=ev['op'], net=ev['cls'])))
+    for k in range(ctx.budget(4, 20)):
+        spec = gen_direct_mat(ctx.rng, k)
+        try:
+            res = maternal_direct(spec)
+        except Exception as e:
+            ctx.broke('correspondence', 'C14.direct', f'direct maternal scenario raised {type(e).__name__}: {e}', data=dict(kind='direct-mat', spec=spec))
+            continue
+        for ev in res['events']:
+            for line, chk in event_lines(ev, variant_of):
+                lines.append(line); checks.append((chk, dict(kind='direct-mat', spec=spec, op=ev['op'], net=ev['cls'])))
     # append with a missing key on a real network object
     lines.append('append kind=random p1=1 p2=2 beta=1 dur=3 n_p1=5 n_p2=6 n_beta=1'); checks.append(('missing', None))
     out = ctx.drive(DRIVER, lines)
@@ -977,6 +1189,16 @@ def search(ctx):
         ctx.count('oracle_direct')
         for sig, what in res['fails']:
             ctx.fail(sig, what, dict(kind='direct', spec=spec))
+    for k in range(ctx.budget(4, 20)):
+        spec = gen_direct_mat(ctx.rng, k)
+        try:
+            res = maternal_direct(spec)
+        except Exception as e:
+            ctx.fail(dict(oracle='direct-raises', error=type(e).__name__), f'direct maternal scenario raised {type(e).__name__}: {e}', dict(kind='direct-mat', spec=spec))
+            continue
+        ctx.count('oracle_direct_mat')
+        for sig, what in res['fails']:
+            ctx.fail(sig, what, dict(kind='direct-mat', spec=spec))
     # stored witnesses of the known findings
     for k in ctx.known:
         if k.get('replay'):
@@ -992,6 +1214,8 @@ def replay_fails(data):
         return run_oracle(data['cfg'])
     if data.get('kind') == 'direct':
         return direct_scenario(data['spec'])['fails']
+    if data.get('kind') == 'direct-mat':
+        return maternal_direct(data['spec'])['fails']
     return []
 
 
